@@ -3,6 +3,9 @@
 import json, sys
 
 CHECKS = {
+ "C20": dict(engine="ENUM", design="§4 C20", technique="bounded-exhaustive enumeration of generated TOML files (structure lattice, option toggles, scale family, constraint-violating neighbours) through the real loader and a fresh ConfigState",
+   text="610 (quick) / 2300+ (thorough, pairwise options) generated configuration files go through Config::load_from_path, generate_config_messages and ConfigState::dispatch: every accepted file must produce commands a fresh state accepts in full and a state containing exactly the declared listeners/clusters/frontends/backends/certificates with the documented defaults the oracle names; reloading must change nothing; 18 constraint-violating neighbours must be rejected at load; sizes 1..1000 per object kind.",
+   note="Defaults not named by the oracle are only covered through reload idempotence. TOML grammar slice: see the generator families in harness/src/checks/c20.rs."),
  "C10": dict(engine="ENUM", design="§4 C10", technique="bounded-exhaustive enumeration of listener sets (count 0..200 x address shape x protocol mix) through the real send_listeners/receive_listeners over a real socket pair",
    text="(a) every listener count 0..=200 x 6 address shapes x 5 protocol distributions is handed over through the real ScmSocket pair; the received (address, fd) lists must equal the sent ones and each received descriptor must be the very socket sent.",
    note="Part (a) only so far. Soft-stop / hand-over timing relative to in-flight requests (part b) needs the SIM engine."),
@@ -45,7 +48,6 @@ PLANNED = {
  "C14": "SIM engine not built yet; planned, see DESIGN.md §4 C14",
  "C15": "ENUM/SIM check not built yet; planned, see DESIGN.md §4 C15",
  "C18": "ENUM/SIM check not built yet; planned, see DESIGN.md §4 C18",
- "C20": "ENUM check not built yet; planned, see DESIGN.md §4 C20",
 }
 
 def main():
